@@ -132,7 +132,9 @@ func agree(a, b any) bool {
 }
 
 func c17Value(r *Rand, tag string) any {
-	switch r.Intn(6) {
+	switch r.Intn(7) {
+	case 6:
+		return nil // a name bound to nil shadows outer bindings: lookup finds (nil, true)
 	case 0:
 		return r.Intn(100)
 	case 1:
